@@ -59,6 +59,23 @@ def code_region(src):
     return out
 
 
+def deletion_mutants(files):
+    """Statement deletion: a single-line statement `…;` (assignment, compound assignment or call,
+    not a `let`/`return`/`use`) is removed."""
+    ms = []
+    for f in files:
+        path = os.path.join("/repo/src", f)
+        src = open(path).read()
+        lines = src.splitlines()
+        for n in code_region(src):
+            t = lines[n].strip()
+            if not t.endswith(";") or t.startswith(("let ", "return", "use ", "pub ", "const ", "type ", "mod ", "}", "//")) or "=>" in t:
+                continue
+            if re.match(r"^[\w\.\*\[\]\(\)&: ]+\s*(\+=|-=|=)\s*[^=].*;$", t) or re.match(r"^[\w\.]+\([^;]*\)\??;$", t):
+                ms.append(dict(file=f, line=n + 1, old=t, new="/* deleted */", _new=lines[n][:len(lines[n]) - len(lines[n].lstrip())] + "/* deleted */"))
+    return ms
+
+
 def mutants(files):
     ms = []
     for f in files:
@@ -99,7 +116,7 @@ def main():
     assert out.strip() == "", "/repo not clean"
     os.makedirs(os.path.join(ROOT, "mutants"), exist_ok=True)
     log = open(os.path.join(ROOT, "mutants", "RESULTS.jsonl"), "a")
-    ms = mutants(files)[::stride][:limit]
+    ms = (deletion_mutants(files) if "--delete" in args else mutants(files))[::stride][:limit]
     print(len(ms), "mutants")
     for i, m in enumerate(ms):
         path = os.path.join("/repo/src", m["file"])
